@@ -1,14 +1,18 @@
-"""Worker (C17): build the REAL HttpxTransport for every configuration emitted by specs/Transport.tla, perform one
-request over an httpx.MockTransport and record the captured httpx.Request.
+"""Worker (C17): build the REAL HttpxTransport for every configuration emitted by specs/Transport.tla, send the
+session's requests through that ONE transport over an httpx.MockTransport and record every captured httpx.Request.
 
 stdin : JSON list of jobs {"id", "cfg"} - cfg is TransportCore!Concrete(sc):
-        defaults / reqHeaders / params / cookies : [[name, value], ...] (empty list => argument not passed / None),
-        plugins : [{kind, loc, name, val, hdrs, refresh, newval}], wrap, bearer ("" => not passed), body ("" => none)
-stdout: one JSON line per job {"id", "obs": {headers: [[raw, lower, value]], query: [[k, v]], cookies: [[k, v]],
-        body, refresh: [args the refresh callback was called with], err}}
+        defaults / params / cookies : [[name, value], ...] (empty list => argument not passed / None),
+        requests : [[[name, value], ...], ...] per-request headers of each request of the session (empty => no headers=),
+        plugins : [{kind, loc, name, val, hdrs, refresh, rets, ...}], wrap, bearer ("" => not passed), body ("" => none);
+        rets = what the refresh callback returns at its i-th call: a token, "<same>" (the token it was shown), "" or
+        "<none>" (None)
+stdout: one JSON line per job {"id", "obs": [one per request {headers: [[raw, lower, value]], query: [[k, v]],
+        cookies: [[k, v]], body, refresh: [what the callback was shown during this request], defaults: the dict passed
+        as default_headers= as it is AFTER the request, err}]}
 
 The MockTransport is injected by wrapping httpx.AsyncClient.__init__ (no private attribute of the transport is
-touched).  Nothing is judged here.
+touched; the default-headers dict is observed through the reference the caller keeps).  Nothing is judged here.
 """
 
 from __future__ import annotations
@@ -51,6 +55,10 @@ def _patched_init(self, *a, **kw):  # type: ignore[no-untyped-def]
 httpx.AsyncClient.__init__ = _patched_init  # type: ignore[method-assign]
 
 
+def _txt(v) -> str:
+    return "<none>" if v is None else str(v)
+
+
 def build_plugin(p: dict, calls: list[str]):
     k = p["kind"]
     if k == "bearer":
@@ -61,11 +69,18 @@ def build_plugin(p: dict, calls: list[str]):
         return HeadersAuth({n: v for n, v in p["hdrs"]})
     if k == "oauth2":
         if p["refresh"]:
-            new = p["newval"]
+            rets = list(p["rets"])
+            ncalls = [0]
 
-            async def cb(current: str) -> str:
-                calls.append(current)
-                return new
+            async def cb(current):
+                calls.append(_txt(current))
+                r = rets[min(ncalls[0], len(rets) - 1)]
+                ncalls[0] += 1
+                if r == "<same>":
+                    return current
+                if r == "<none>":
+                    return None
+                return r
 
             return OAuth2Auth(p["val"], refresh_callback=cb)
         return OAuth2Auth(p["val"])
@@ -99,58 +114,75 @@ def parse_cookie_header(values: list[str]) -> list[list[str]]:
     return out
 
 
+def _empty(err: str) -> dict:
+    return {"headers": [], "query": [], "cookies": [], "body": "", "refresh": [], "defaults": [], "err": err}
+
+
 async def run_job(job: dict) -> dict:
     cfg = job["cfg"]
     calls: list[str] = []
-    obs = {"headers": [], "query": [], "cookies": [], "body": "", "refresh": [], "err": "none"}
     tkw: dict = {"base_url": "http://h.test"}
-    auth = build_auth(cfg, calls)
-    if auth is not None:
-        tkw["auth"] = auth
-    if cfg["bearer"]:
-        tkw["bearer_token"] = cfg["bearer"]
-    if cfg["defaults"]:
-        tkw["default_headers"] = {n: v for n, v in cfg["defaults"]}
-    rkw: dict = {}
-    if cfg["reqHeaders"]:
-        rkw["headers"] = {n: v for n, v in cfg["reqHeaders"]}
-    if cfg["params"]:
-        rkw["params"] = {n: v for n, v in cfg["params"]}
-    if cfg["cookies"]:
-        rkw["cookies"] = {n: v for n, v in cfg["cookies"]}
-    if cfg["body"]:
-        rkw["content"] = cfg["body"].encode()
-    _captured.clear()
+    defaults = None
+    out: list[dict] = []
     transport = None
     try:
+        auth = build_auth(cfg, calls)
+        if auth is not None:
+            tkw["auth"] = auth
+        if cfg["bearer"]:
+            tkw["bearer_token"] = cfg["bearer"]
+        if cfg["defaults"]:
+            defaults = {n: v for n, v in cfg["defaults"]}
+            tkw["default_headers"] = defaults
         transport = HttpxTransport(**tkw)
-        await transport.request("POST", "/p", **rkw)
-        if len(_captured) != 1:
-            obs["err"] = f"captured {len(_captured)} requests"
-        else:
-            r = _captured[0]
-            cookie_values = []
-            for raw, val in r.headers.raw:
-                n = raw.decode("latin-1")
-                v = val.decode("latin-1")
-                if n.lower() == "cookie":
-                    cookie_values.append(v)
-                elif n.lower() not in HTTPX_OWN:
-                    obs["headers"].append([n, n.lower(), v])
-            obs["query"] = [[k, v] for k, v in r.url.params.multi_items()]
-            obs["cookies"] = parse_cookie_header(cookie_values)
-            obs["body"] = r.content.decode("latin-1")
-            obs["refresh"] = list(calls)
-    except Exception as e:  # noqa: BLE001 - the exception type is the observation
-        obs = {"headers": [], "query": [], "cookies": [], "body": "", "refresh": [], "err": type(e).__name__}
-        obs["detail"] = str(e)[:200]
+        for req_headers in cfg["requests"]:
+            rkw: dict = {}
+            if req_headers:
+                rkw["headers"] = {n: v for n, v in req_headers}
+            if cfg["params"]:
+                rkw["params"] = {n: v for n, v in cfg["params"]}
+            if cfg["cookies"]:
+                rkw["cookies"] = {n: v for n, v in cfg["cookies"]}
+            if cfg["body"]:
+                rkw["content"] = cfg["body"].encode()
+            _captured.clear()
+            shown_before = len(calls)
+            obs = _empty("none")
+            try:
+                await transport.request("POST", "/p", **rkw)
+                if len(_captured) != 1:
+                    obs["err"] = f"captured {len(_captured)} requests"
+                else:
+                    r = _captured[0]
+                    cookie_values = []
+                    for raw, val in r.headers.raw:
+                        n = raw.decode("latin-1")
+                        v = val.decode("latin-1")
+                        if n.lower() == "cookie":
+                            cookie_values.append(v)
+                        elif n.lower() not in HTTPX_OWN:
+                            obs["headers"].append([n, n.lower(), v])
+                    obs["query"] = [[k, v] for k, v in r.url.params.multi_items()]
+                    obs["cookies"] = parse_cookie_header(cookie_values)
+                    obs["body"] = r.content.decode("latin-1")
+                    obs["refresh"] = list(calls[shown_before:])
+                    obs["defaults"] = [[n, _txt(v)] for n, v in (defaults or {}).items()]
+            except Exception as e:  # noqa: BLE001 - the exception type is the observation
+                obs = _empty(type(e).__name__)
+                obs["detail"] = str(e)[:200]
+            out.append(obs)
+    except Exception as e:  # noqa: BLE001
+        while len(out) < len(cfg["requests"]):
+            o = _empty(type(e).__name__)
+            o["detail"] = str(e)[:200]
+            out.append(o)
     finally:
         if transport is not None:
             try:
                 await transport.close()
             except Exception:  # noqa: BLE001
                 pass
-    return {"id": job["id"], "obs": obs}
+    return {"id": job["id"], "obs": out}
 
 
 async def main() -> None:
